@@ -233,7 +233,9 @@ def run_harness(h, tier, timeout_scale=1.0):
     MEM.acquire(h.mem_gb)
     t0 = time.time()
     try:
-        shell = 'ulimit -v %d; exec /usr/bin/time -f PV_MAXRSS_KB=%%M "$@"' % (h.mem_gb * 1024 * 1024)
+        # address-space limit = budget + 25 %: budgets are 1.5 x a measured peak RSS + 3 GB, but the peak moves by a few GB between
+        # runs and virtual size exceeds RSS; the scheduler still accounts the plain budget
+        shell = 'ulimit -v %d; exec /usr/bin/time -f PV_MAXRSS_KB=%%M "$@"' % int(h.mem_gb * 1.25 * 1024 * 1024)
         with open(logp, 'wb') as lf:
             p = subprocess.Popen(['bash', '-c', shell, 'bash'] + cmd, cwd=cwd, env=base_env(), stdout=lf,
                                  stderr=subprocess.STDOUT, start_new_session=True)
